@@ -1,7 +1,7 @@
 import HexProofs.Framework.Schedule
 import HexProofs.Framework.Fill
 import HexProofs.Framework.Kinds.All
-import HexProofs.Framework.Gen.All
+import HexProofs.Framework.Gen.AllX
 import HexProofs.Lib.IntInst
 import HexProps.C03
 /-
@@ -122,13 +122,16 @@ theorem C01_partial_tf (tf : Int) (htf : 0 < tf) (fill : Bool) (k : Kind F) (nam
 
 /-! ### composite trees -/
 
-/-- **C01, partial: all covered TREES** (`CoveredTree`: every leaf class and the composite kinds
+/-- **C01, partial: all covered TREES** (`CoveredTreeX`: every leaf class and the composite kinds
 whose refinement is proved – the data-series kinds VWAP, STDEV, RSI, ATR with its prior TR
 helper, KC with its ATR and EMA helpers, STDEVTHRES and BBANDS with their STDEV / SMA helpers,
-Supertrend with ATR / HLA helpers and its own data series), base timeframe.  If the
+Supertrend with ATR / HLA helpers and its own data series, and the kinds whose step drives
+indicator-type managed children: MACD (signal EMA over its own dict entry), HMA (WMA over a managed
+raw series), STOCH (two SMAs over its data series), TSI (two two-level EMA chains), ADX (prior ATR tree,
+two RMAs over its data series and a managed RMA) – every shipped indicator class), base timeframe.  If the
 live history returns, the batch run returns the same candles: OHLCV, stamps, the node's readings
 and its helper series. -/
-theorem C01_trees_base (k : Kind F) (name : String) (round : Nat) (hk : CoveredTree name k)
+theorem C01_trees_base (k : Kind F) (name : String) (round : Nat) (hk : CoveredTreeX name k)
     (init : List (Candle F)) (chunks : List (List (Candle F)))
     (hp : RawInput (init ++ chunks.flatten)) (snap : List (Candle F))
     (hlive : candlesOf (runIndicator (mkTop k name round) {} init chunks) = .ok snap) :
@@ -138,7 +141,7 @@ theorem C01_trees_base (k : Kind F) (name : String) (round : Nat) (hk : CoveredT
 
 /-- **C01, partial: all covered trees, any timeframe, gap filling off or on.** -/
 theorem C01_trees (tf : Option Int) (htf : ∀ t, tf = some t → 0 < t) (fill : Bool) (k : Kind F)
-    (name : String) (round : Nat) (hk : CoveredTree name k)
+    (name : String) (round : Nat) (hk : CoveredTreeX name k)
     (init : List (Candle F)) (chunks : List (List (Candle F)))
     (hraw : RawTf (init ++ chunks.flatten)) (snap : List (Candle F))
     (hlive : candlesOf (runIndicator (mkTop k name round) { tf := tf, fill := fill && tf.isSome } init chunks)
@@ -153,7 +156,7 @@ theorem C01_trees (tf : Option Int) (htf : ∀ t, tf = some t → 0 < t) (fill :
 
 /-- the batch run returns iff the row-major spec does (trees compute their helper series
 column-major, so when a reading raises the two may raise different exceptions) -/
-theorem batch_iff_rowMajor_trees (k : Kind F) (name : String) (round : Nat) (hk : CoveredTree name k)
+theorem batch_iff_rowMajor_trees (k : Kind F) (name : String) (round : Nat) (hk : CoveredTreeX name k)
     (stream : List (Candle F)) (hp : RawInput stream) :
     ∃ T : TreeSpec (mkTop k name round), ∀ out,
       candlesOf (runBatch (mkTop k name round) {} stream) = .ok out ↔ Gen.rowMajor T.S stream = .ok out := by
@@ -182,15 +185,14 @@ structure WellFormed (xs : List (Candle F)) : Prop where
 /-- **C01 at full strength**: every shipped kind (27 classes, composites included, as built by
 `mkTop`), every parameter choice with positive periods, base or collapsing timeframe, with or
 without gap filling, every construction prefix and append schedule.
-NOT proved yet.  Missing: (i) inputs that are other indicators' readings (here: candle
-attributes only, the stream being raw); (ii) the five composite kinds not in `CoveredTree`:
-MACD, STOCH, HMA, TSI, ADX – their `_calculate_reading` drives indicator-type managed children
-(`calculate_index(i)` of a child inside the parent's step; `Managed` children with non-prior
-sub-indicators; the `start_index and end_index` fallback to a full `calculate()` at index 0), which
-the component calculus of HexProofs/Framework/Gen/Comp.lean (column-major passes of prior helpers)
-does not cover; ADX is known to violate the statement (see known_findings).  Covered
-(`C01_trees`): all 14 leaf classes, VWAP, STDEV, RSI, ATR, KC, STDEVTHRES, BBANDS, Supertrend.  (Timeframes and gap filling are done: `schedule_independent_leaf_tf`,
-`schedule_independent_leaf_fill`.)
+NOT proved at this strength.  Missing: (i) inputs that are other indicators' readings (here: candle
+attributes only, the stream being raw); (ii) parameter corners the covered proofs exclude because the code then
+takes the `if start_index and end_index` fallback to a full `calculate()` of a child at index 0: period 1 for HMA
+and STOCH; Amorph wrappers are covered for the 20 shipped analysis functions only; (iii) names that are not ordinary
+keys (a dot in `fullname_override`) or collide with helper names.
+Covered (`C01_trees`; one constructor of `CoveredTreeX` per class): all 27 shipped classes – 14 leaf classes, VWAP, STDEV, RSI, ATR, KC,
+STDEVTHRES, BBANDS, Supertrend, MACD, HMA, STOCH, TSI, ADX.  (Timeframes and gap filling are done:
+`schedule_independent_leaf_tf`, `schedule_independent_leaf_fill`.)
 Note that with a timeframe the statement can only hold for histories that run: a reading on the
 still-forming bucket may raise where the batch run does not; so the full statement is about
 runs that return. -/
@@ -278,6 +280,37 @@ example : (match candlesOf (runIndicator (mkTop (.supertrend 2 "close" (.int 3))
     | .ok cs => cs.map (fun c => ((dlookup "ST_2" c.inds).isSome, (c.subs.map (·.1))))
     | .error _ => []) = [(true, ["ST_2_atr_TR", "ST_2_atr", "ST_2_HL"]), (true, ["ST_2_atr_TR", "ST_2_atr", "ST_2_HL"]),
       (true, ["ST_2_atr_TR", "ST_2_atr", "ST_2_HL", "ST_2_data"]), (true, ["ST_2_atr_TR", "ST_2_atr", "ST_2_HL", "ST_2_data"])] := by
+  decide +kernel
+/-! the composites that drive managed children -/
+example : CoveredTreeX (F := Int) "MACD_2_3_2" (.macd 2 3 2 "close") :=
+  .macd 2 3 2 "close" (by decide) (by decide) (by decide)
+    ⟨by decide, by decide, by decide, by decide, by decide, by decide, by decide, by decide, by decide,
+      by decide⟩ (by decide)
+example : CoveredTreeX (F := Int) "HMA_4" (.hma 4 "close") :=
+  .hma 4 "close" (by decide)
+    ⟨by decide, by decide, by decide, by decide, by decide, by decide, by decide, by decide, by decide, by decide,
+      by decide, by decide, by decide, by decide, by decide⟩ (by decide)
+example : CoveredTreeX (F := Int) "STOCH_3" (.stoch 3 3 3 "close") :=
+  .stoch 3 3 3 "close" (by decide) (by decide) (by decide)
+    ⟨by decide, by decide, by decide, by decide, by decide, by decide, by decide, by decide, by decide,
+      by decide⟩ (by decide)
+example : CoveredTreeX (F := Int) "TSI_3_1" (.tsi 3 1 "close") :=
+  .tsi 3 1 "close" (by decide) (by decide)
+    ⟨by decide, by decide, by decide, by decide, by decide, by decide, by decide, by decide, by decide,
+      by decide, by decide, by decide, by decide, by decide, by decide, by decide, by decide, by decide,
+      by decide, by decide, by decide⟩ (by decide)
+example : CoveredTreeX (F := Int) "ADX_3_3" (.adx 3 3) :=
+  .adx 3 3 (by decide) (by decide)
+    ⟨by decide, by decide, by decide, by decide, by decide, by decide, by decide, by decide, by decide, by decide,
+      by decide, by decide, by decide, by decide, by decide, by decide, by decide, by decide, by decide, by decide,
+      by decide, by decide, by decide, by decide, by decide, by decide, by decide, by decide⟩
+/-- MACD over the demo, one candle at a time from an empty start: the live run returns and every candle
+carries the node's dict and both prior EMA helpers; the signal line appears once the slow EMA exists -/
+example : (match candlesOf (runIndicator (mkTop (.macd 2 3 2 "close") "MACD_2_3_2" 4) {} [] [demo.take 1, demo.drop 1]) with
+    | .ok cs => cs.map (fun c => ((dlookup "MACD_2_3_2" c.inds).isSome, (c.subs.map (·.1))))
+    | .error _ => []) = [(true, ["MACD_2_3_2_EMA_fast", "MACD_2_3_2_EMA_slow"]), (true, ["MACD_2_3_2_EMA_fast", "MACD_2_3_2_EMA_slow"]),
+      (true, ["MACD_2_3_2_EMA_fast", "MACD_2_3_2_EMA_slow", "MACD_2_3_2_signal_line"]),
+      (true, ["MACD_2_3_2_EMA_fast", "MACD_2_3_2_EMA_slow", "MACD_2_3_2_signal_line"])] := by
   decide +kernel
 /-- VWAP over the demo, live = batch, with its `VWAP_3_data` helper series written on every candle -/
 example : (match candlesOf (runIndicator (mkTop (.vwap 3) "VWAP_3" 4) {} [] [demo.take 1, demo.drop 1]) with
